@@ -50,8 +50,8 @@ func collectGlobalInit(p *Program, s *summarizer, init *ssa.Function, g *ssa.Glo
 			if kind == "closure" {
 				var n int
 				fmt.Sscanf(m[strings.Index(m, "#")+1:], "%d", &n)
-				if n < len(s.sum.Closures) {
-					gi.Closures = append(gi.Closures, s.sum.Closures[n])
+				if n < len(s.ord.closList) {
+					gi.Closures = append(gi.Closures, s.ord.closList[n])
 				}
 			}
 			return v
